@@ -1037,6 +1037,15 @@ DOCUMENTED_DEFAULTS = {
 }
 
 
+# options taken through **options: documented default -> attribute of a default-constructed object
+OPTION_DEFAULTS = {
+    'core.Derivative.__init__': ('core.Derivative', dict(richardson_terms=2, full_output=False)),
+    'core.Hessdiag.__init__': ('core.Hessdiag', dict(richardson_terms=2, full_output=False)),
+    'core.Hessian.__init__': ('core.Hessian', dict(richardson_terms=2, full_output=False)),
+    'limits.CStepGenerator.__init__': ('limits.CStepGenerator', dict(path='radial')),
+}
+
+
 def default_argument_mismatches(keys=None):
     """[(entry point, argument, default found, documented default)] for the real signatures (needs numdifftools importable)"""
     import importlib
@@ -1055,4 +1064,19 @@ def default_argument_mismatches(keys=None):
             same = (got is dflt) if dflt is None or isinstance(dflt, bool) else (type(got) in (int, float, str) and got == dflt and isinstance(got, bool) == isinstance(dflt, bool))
             if not same:
                 bad.append((key, arg, repr(got), repr(dflt)))
+        if key in OPTION_DEFAULTS:
+            path, attrs = OPTION_DEFAULTS[key]
+            modname, rest = path.split('.', 1)
+            cls = importlib.import_module('numdifftools.' + modname)
+            for part in rest.split('.'):
+                cls = getattr(cls, part)
+            try:
+                inst = cls() if modname == 'limits' else cls(lambda x: x)
+            except Exception as e:
+                bad.append((key, '<default construction>', repr(e)[:80], 'constructs'))
+                continue
+            for arg, dflt in attrs.items():
+                got = getattr(inst, arg, '<no such attribute>')
+                if not (type(got) is type(dflt) and got == dflt):
+                    bad.append((key, 'option ' + arg, repr(got), repr(dflt)))
     return bad
